@@ -49,7 +49,8 @@ def struct(x):
         a = np.ascontiguousarray(x)
         return ('arr', a.dtype.str, tuple(a.shape), a.tobytes())
     if isinstance(x, dict):
-        return ('dict', {str(k): struct(v) for k, v in x.items()})
+        return ('dict', {str(k): struct(v) for k, v in x.items()},
+                [str(k) for k in x])
     if isinstance(x, tuple(emg3d.utils._KNOWN_CLASSES.values())):
         name = type(x).__name__
         if name == 'Simulation':
@@ -60,7 +61,8 @@ def struct(x):
         d = {k: v for k, v in d.items() if k != '__class__'}
         if hasattr(x, 'face_areas') and name != 'TensorMesh':
             name = 'TensorMesh'
-        return ('obj', name, struct(d)[1])
+        sd = struct(d)
+        return ('obj', name, sd[1], sd[2])
     if hasattr(x, 'values') and hasattr(x, 'dims'):      # xarray
         return struct(np.asarray(x.values))
     if isinstance(x, (list, tuple)):
@@ -68,14 +70,21 @@ def struct(x):
     return ('other', type(x).__name__)
 
 
-def diff(a, b, path=''):
-    """First difference between two structures, or None."""
+def diff(a, b, path='', ordered=False):
+    """First difference between two structures, or None.  Inside emg3d
+    objects the key order of dictionaries is significant (sources, receivers
+    and frequencies are attached to the data arrays by position)."""
     if a[0] != b[0]:
         return f'{path}: {_s(a)} vs {_s(b)}'
     if a[0] == 'dict':
         ka, kb = set(a[1]), set(b[1])
+        if ordered and ka == kb and len(a) > 2 and len(b) > 2 and \
+                a[2] != b[2] and path.rsplit('/', 1)[-1] in (
+                    'sources', 'receivers', 'frequencies'):
+            return (f'{path}: key order differs: saved {a[2]}, loaded '
+                    f'{b[2]} (names are attached to data by position)')
         if ka != kb:
-            if not (kb - ka) and all(a[1][k] == ('dict', {})
+            if not (kb - ka) and all(a[1][k][:2] == ('dict', {})
                                      for k in ka - kb):
                 return (f'{path}: EMPTY-DICT-DROPPED: the empty '
                         f'dictionaries {sorted(ka - kb)} are missing after '
@@ -83,19 +92,21 @@ def diff(a, b, path=''):
             return (f'{path}: keys differ: only saved {sorted(ka - kb)}, '
                     f'only loaded {sorted(kb - ka)}')
         for k in sorted(ka):
-            d = diff(a[1][k], b[1][k], f'{path}/{k}')
+            d = diff(a[1][k], b[1][k], f'{path}/{k}', ordered)
             if d:
                 return d
         return None
     if a[0] == 'obj':
         if a[1] != b[1]:
             return f'{path}: class {a[1]} vs {b[1]}'
-        return diff(('dict', a[2]), ('dict', b[2]), f'{path}<{a[1]}>')
+        # (not for electrodes: their to_dict iterates over a set)
+        return diff(('dict', a[2], a[3]), ('dict', b[2], b[3]),
+                    f'{path}<{a[1]}>', a[1] in ('Survey', 'Simulation'))
     if a[0] == 'list':
         if len(a[1]) != len(b[1]):
             return f'{path}: list length'
         for i, (x, y) in enumerate(zip(a[1], b[1])):
-            d = diff(x, y, f'{path}[{i}]')
+            d = diff(x, y, f'{path}[{i}]', ordered)
             if d:
                 return d
         return None
@@ -550,7 +561,7 @@ class C17(Machine):
                         f'load({os.path.basename(path)}): {w.message}',
                         quantity=fmt, op=opk)
             for name, s in want.items():
-                if name not in got and s == ('dict', {}):
+                if name not in got and s[:2] == ('dict', {}):
                     raise Violation(
                         'convert' if opk == 'convert' else 'roundtrip',
                         f'{os.path.basename(path)}: EMPTY-DICT-DROPPED: '
